@@ -53,7 +53,7 @@ func init() {
 			if tier == "thorough" {
 				return 12000
 			}
-			return 900
+			return 2500
 		},
 		Floor: func(string) int { return 200 },
 		Run:   runC06,
@@ -65,7 +65,13 @@ func runC06(ctx *core.Ctx, idx int) *core.Result {
 	r := ctx.Rand("c06", idx)
 	g := gen.NewG(r)
 	g.Comment = r.Intn(2) == 0
-	kind := []string{"A-anchor-absent", "B-mixed", "C-guard-fails", "D-near-miss"}[idx%4]
+	kind := []string{"A-anchor-absent", "B-mixed", "C-guard-fails", "D-near-miss", "E-mixed-with-failures"}[idx%5]
+	withFailures := kind == "E-mixed-with-failures"
+	if withFailures {
+		// like B, plus a file that does not parse and a file on which a change matches but cannot be built:
+		// the run fails, the files that nothing matches are still untouched, silent and echoed
+		kind = "B-mixed"
+	}
 	matching := "@@\nvar x expression\n@@\n-bump(x)\n+bump(x + 1)\n"
 	var patches []string
 	switch kind {
@@ -78,6 +84,9 @@ func runC06(ctx *core.Ctx, idx int) *core.Result {
 		patches = append(patches, "# bumps\n"+matching)
 		if r.Intn(2) == 0 {
 			patches = append(patches, "@@\n@@\n-zzNoSuchIdent\n+zzRenamed\n")
+		}
+		if withFailures {
+			patches = append(patches, "@@\nvar n, y expression\n@@\n-var _ = tgtPair(n, y)\n+var n = y\n")
 		}
 	case "C-guard-fails":
 		switch r.Intn(3) {
@@ -95,8 +104,16 @@ func runC06(ctx *core.Ctx, idx int) *core.Result {
 	type fileInfo struct {
 		name, src, layout string
 		matched          bool
+		failing          bool // does not parse, or a change cannot be built for it
 	}
 	var files []fileInfo
+	brokenAt, failAt := -1, -1
+	if withFailures {
+		brokenAt, failAt = r.Intn(nf), r.Intn(nf)
+		if failAt == brokenAt {
+			failAt = (brokenAt + 1) % nf
+		}
+	}
 	for f := 0; f < nf; f++ {
 		var src string
 		var plants []gen.Plant
@@ -133,7 +150,14 @@ func runC06(ctx *core.Ctx, idx int) *core.Result {
 				src, layout = g.File(gen.FileOpts{Plants: plants}), "gofmt-like"
 			}
 		}
-		files = append(files, fileInfo{fmt.Sprintf("f%02d.go", f), src, layout, matched})
+		fi := fileInfo{name: fmt.Sprintf("f%02d.go", f), src: src, layout: layout, matched: matched}
+		switch f {
+		case brokenAt:
+			fi.src, fi.layout, fi.matched, fi.failing = "package p\n\nfunc broken( {\n\tbump(1)\n", "unparseable", false, true
+		case failAt:
+			fi.src, fi.layout, fi.matched, fi.failing = "package p\n\nvar _ = tgtPair(call(), 1)\n\nfunc h"+fmt.Sprint(f)+"() { bump(2) }\n", "rewrite-error", false, true
+		}
+		files = append(files, fi)
 	}
 	dir, _ := os.MkdirTemp(ctx.Tmp, "c06")
 	defer os.RemoveAll(dir)
@@ -195,7 +219,10 @@ func runC06(ctx *core.Ctx, idx int) *core.Result {
 		res.Violate("C06/"+cc, string(cr.Stderr), rep)
 		return res
 	}
-	if cr.Exit != 0 {
+	if withFailures {
+		res.Ob("runs-with-failing-files", 1)
+	}
+	if cr.Exit != 0 && !withFailures {
 		res.Violate("C06/nonzero-exit", fmt.Sprintf("[%s, %s] exit %d: %s", kind, flagWord, cr.Exit, cr.Stderr), rep)
 		return res
 	}
@@ -215,6 +242,9 @@ func runC06(ctx *core.Ctx, idx int) *core.Result {
 	var printExpect strings.Builder
 	for i, f := range files {
 		res.Evals++
+		if f.failing {
+			continue
+		}
 		if f.matched {
 			printExpect.WriteString(apiOut[i])
 			continue
@@ -256,11 +286,11 @@ func runC06(ctx *core.Ctx, idx int) *core.Result {
 		}
 	}
 	skipImp := strings.Contains(flagWord, "--skip-import-processing")
-	if mode == "print" && !verbose && skipImp && kind == "B-mixed" {
+	if mode == "print" && !verbose && (skipImp || withFailures) && kind == "B-mixed" {
 		// matched files are printed without import processing, which the library cannot do:
 		// only the unmatched files' bytes are checked
 		for _, f := range files {
-			if !f.matched && !strings.Contains(stdout, f.src) {
+			if !f.matched && !f.failing && !strings.Contains(stdout, f.src) {
 				res.Violate("C06/print-only-not-original-bytes", fmt.Sprintf("[%s, %s] original bytes of unmatched %s not echoed", kind, flagWord, f.name), rep)
 			}
 		}
@@ -269,6 +299,14 @@ func runC06(ctx *core.Ctx, idx int) *core.Result {
 	}
 	if mode == "diff" && kind != "B-mixed" && !verbose && len(stdout) > 0 {
 		res.Violate("C06/diff-output-without-match", core.Trunc(stdout, 300), rep)
+	}
+	if withFailures {
+		// nothing may be written over an unmatched or failing file, whatever else fails
+		for _, f := range files {
+			if (f.failing || !f.matched) && before[f.name] != after[f.name] {
+				res.Violate("C06/unmatched-file-touched", fmt.Sprintf("[E-mixed-with-failures, %s] %s changed on disk", flagWord, f.name), rep)
+			}
+		}
 	}
 	if kind != "B-mixed" && strings.TrimSpace(stderr) != "" {
 		res.Violate("C06/stderr-output-without-match", core.Trunc(stderr, 300), rep)
